@@ -345,6 +345,178 @@ func runSlice(nalu []byte, arg string) (r result) {
 	return r
 }
 
+// ---------------------------------------------------------------- AVC decoder configuration record
+func flatBytes(f *flat, name string, b []byte) {
+	f.u(name+".len", uint64(len(b)))
+	for i, x := range b {
+		f.u(fmt.Sprintf("%s[%d]", name, i), uint64(x))
+	}
+}
+
+func flatNalus(f *flat, name string, l [][]byte) {
+	f.u(name+".len", uint64(len(l)))
+	for i, n := range l {
+		flatBytes(f, fmt.Sprintf("%s[%d]", name, i), n)
+	}
+}
+
+func flatConfRec(f *flat, name string, d *avc.DecConfRec) {
+	f.u(name+".AVCProfileIndication", uint64(d.AVCProfileIndication))
+	f.u(name+".ProfileCompatibility", uint64(d.ProfileCompatibility))
+	f.u(name+".AVCLevelIndication", uint64(d.AVCLevelIndication))
+	flatNalus(f, name+".SPSnalus", d.SPSnalus)
+	flatNalus(f, name+".PPSnalus", d.PPSnalus)
+	f.u(name+".ChromaFormat", uint64(d.ChromaFormat))
+	f.u(name+".BitDepthLumaMinus1", uint64(d.BitDepthLumaMinus1))
+	f.u(name+".BitDepthChromaMinus1", uint64(d.BitDepthChromaMinus1))
+	f.u(name+".NumSPSExt", uint64(d.NumSPSExt))
+	f.b(name+".NoTrailingInfo", d.NoTrailingInfo)
+}
+
+func unhexList(s string) [][]byte {
+	if s == "" {
+		return nil
+	}
+	var l [][]byte
+	for _, h := range strings.Split(s, ",") {
+		l = append(l, hx.Exact(hx.UnHex(h)))
+	}
+	return l
+}
+
+// flatEncode appends Size, then 1 + the encoded bytes (0 if Encode returned an error); returns the bytes.
+func flatEncode(f *flat, name string, d *avc.DecConfRec) ([]byte, bool) {
+	f.u(name+".Size", d.Size())
+	var buf bytes.Buffer
+	if err := d.Encode(&buf); err != nil {
+		f.u(name+".encoded", 0)
+		return nil, false
+	}
+	f.u(name+".encoded", 1)
+	flatBytes(f, name+".bytes", buf.Bytes())
+	return buf.Bytes(), true
+}
+
+// runConf: CreateAVCDecConfRec -> Size/Encode -> DecodeAVCDecConfRec of the encoded bytes -> CodecString("avc1", first SPS).
+// arg = "sps,sps;pps,pps;includePS".
+func runConf(arg string) (r result) {
+	parts := strings.Split(arg, ";")
+	if len(parts) != 3 {
+		return result{outcome: "badarg"}
+	}
+	spss, ppss, incl := unhexList(parts[0]), unhexList(parts[1]), parts[2] == "1"
+	p := hx.Try(func() {
+		d, err := avc.CreateAVCDecConfRec(spss, ppss, incl)
+		if err != nil {
+			r = result{outcome: "err", errStr: err.Error()}
+			return
+		}
+		f := &flat{}
+		flatConfRec(f, "created", d)
+		if enc, ok := flatEncode(f, "created", d); ok {
+			dec, err := avc.DecodeAVCDecConfRec(hx.Exact(enc))
+			if err != nil {
+				f.u("decoded.ok", 0)
+			} else {
+				f.u("decoded.ok", 1)
+				flatConfRec(f, "decoded", &dec)
+			}
+		}
+		if len(spss) > 0 {
+			if sps, err := avc.ParseSPSNALUnit(spss[0], false); err == nil {
+				flatBytes(f, "codec", []byte(avc.CodecString("avc1", sps)))
+			}
+		}
+		r = result{outcome: "ok", f: f}
+	})
+	if p != "" {
+		r = result{outcome: "panic", errStr: p}
+	}
+	return r
+}
+
+// runConfD: DecodeAVCDecConfRec on arbitrary bytes; the record, its Size and its re-encoding.
+func runConfD(data []byte) (r result) {
+	p := hx.Try(func() {
+		d, err := avc.DecodeAVCDecConfRec(hx.Exact(data))
+		if err != nil {
+			r = result{outcome: "err", errStr: err.Error()}
+			return
+		}
+		f := &flat{}
+		flatConfRec(f, "decoded", &d)
+		flatEncode(f, "decoded", &d)
+		r = result{outcome: "ok", f: f}
+	})
+	if p != "" {
+		r = result{outcome: "panic", errStr: p}
+	}
+	return r
+}
+
+// payloads of the avcC boxes found by a byte scan (size field in front of the type)
+func scanAvcCRecords(data []byte) [][]byte {
+	var recs [][]byte
+	idx := 0
+	for {
+		k := bytes.Index(data[idx:], []byte("avcC"))
+		if k < 0 {
+			break
+		}
+		p := idx + k
+		idx = p + 4
+		if p < 4 {
+			continue
+		}
+		size := int(data[p-4])<<24 | int(data[p-3])<<16 | int(data[p-2])<<8 | int(data[p-1])
+		if size < 8 || p-4+size > len(data) || size > 1<<16 {
+			continue
+		}
+		recs = append(recs, data[p+4:p-4+size])
+	}
+	return recs
+}
+
+func capturedAvcC(repo string) []caseLine {
+	var cs []caseLine
+	seen := map[string]bool{}
+	var files []string
+	_ = filepath.Walk(repo, func(path string, info os.FileInfo, err error) error {
+		if err != nil {
+			return nil
+		}
+		if info.IsDir() {
+			if info.Name() == ".git" {
+				return filepath.SkipDir
+			}
+			return nil
+		}
+		switch filepath.Ext(path) {
+		case ".mp4", ".cmfv", ".m4s", ".mp4s":
+			if info.Size() < 64<<20 {
+				files = append(files, path)
+			}
+		}
+		return nil
+	})
+	sort.Strings(files)
+	for _, path := range files {
+		data, err := os.ReadFile(path)
+		if err != nil {
+			continue
+		}
+		for _, rec := range scanAvcCRecords(data) {
+			h := hx.Hex(rec)
+			if seen[h] || len(rec) == 0 {
+				continue
+			}
+			seen[h] = true
+			cs = append(cs, caseLine{"CONFD", fmt.Sprintf("cr%d", len(cs)), "-", h, "0", "-"})
+		}
+	}
+	return cs
+}
+
 type caseLine struct {
 	kind, id, arg, nalu, g, exp string
 }
@@ -378,6 +550,10 @@ func runCase(c caseLine) result {
 		return runPPS(nalu, c.arg)
 	case "SLICE":
 		return runSlice(nalu, c.arg)
+	case "CONF":
+		return runConf(c.arg)
+	case "CONFD":
+		return runConfD(nalu)
 	}
 	return runHevcCase(c, nalu)
 }
@@ -520,6 +696,9 @@ func corr(cases []caseLine, repo string) {
 	for _, c := range capturedHevc(repo) {
 		emitObs(c)
 	}
+	for _, c := range capturedAvcC(repo) {
+		emitObs(c)
+	}
 	cap := captured(repo)
 	k := 0
 	allSps := make([]string, 0, 32)
@@ -563,6 +742,10 @@ func siteOf(kind string) string {
 		return "avc.ParsePPSNALUnit"
 	case "SLICE":
 		return "avc.ParseSliceHeader"
+	case "CONF":
+		return "avc.CreateAVCDecConfRec"
+	case "CONFD":
+		return "avc.DecodeAVCDecConfRec"
 	}
 	return hevcSiteOf(kind)
 }
